@@ -8,7 +8,7 @@ result type `Outcome α` has exactly the constructors `ok` and `err`; Lean accep
 recursion (on the nesting fuel / the element count / the parameter-loop fuel), which is the termination proof.
 `outcome_total` states the "value or error" half explicitly.
 -/
-import ScyllaVerif.Proofs.DecodeAlloc
+import ScyllaVerif.Proofs.DecodeRT
 
 namespace ScyllaVerif.Props.C08
 open ScyllaVerif.C08
@@ -143,16 +143,8 @@ theorem depth_bounded (f : Features) (cached : Option ResultMeta) (decomp : Opti
         | some body => exact (body_bounds f cached h body).2
     · exact (body_bounds f cached h h.body).2
 
-/-! ### wire encoders written from the protocol specification (§3 of native_protocol_v4.spec) -/
-
-def encShort (n : Nat) : Bytes := [UInt8.ofNat (n / 256), UInt8.ofNat (n % 256)]
-def encInt (v : Int) : Bytes :=
-  let u : Nat := (v % 2 ^ 32).toNat
-  [UInt8.ofNat (u / 2 ^ 24), UInt8.ofNat (u / 2 ^ 16 % 256), UInt8.ofNat (u / 2 ^ 8 % 256), UInt8.ofNat (u % 256)]
-def encString (s : Bytes) : Bytes := encShort s.length ++ s
-def encBytesOpt : Option Bytes → Bytes
-  | none => encInt (-1)
-  | some b => encInt b.length ++ b
+/-! ### primitives: round trip and truncation
+(wire encoders `encShort`, `encInt`, `encString`, … are defined from the protocol specification in Proofs/DecodeRT.lean) -/
 
 theorem takeN_append (xs rest : Bytes) (k : String) (s : St) (hs : s.buf = xs ++ rest) :
     takeN xs.length k s = (.ok xs, { s with buf := rest }) := by
@@ -162,10 +154,6 @@ theorem takeN_append (xs rest : Bytes) (k : String) (s : St) (hs : s.buf = xs ++
 theorem takeN_short (n : Nat) (k : String) (s : St) (h : s.buf.length < n) : takeN n k s = (.err k, s) := by
   unfold takeN; simp [h]
 
-theorem beNat_encShort (n : Nat) (h : n < 65536) : beNat (encShort n) = n := by
-  simp only [encShort, beNat, List.foldl, UInt8.toNat_ofNat']
-  omega
-
 theorem readShort_roundtrip (n : Nat) (h : n < 65536) (rest : Bytes) (s : St) (hs : s.buf = encShort n ++ rest) :
     readShort s = (.ok n, { s with buf := rest }) := by
   unfold readShort
@@ -173,11 +161,6 @@ theorem readShort_roundtrip (n : Nat) (h : n < 65536) (rest : Bytes) (s : St) (h
   simp only [encShort, List.length_cons, List.length_nil] at this
   simp only [bind_def, this, pure_def]
   rw [show [UInt8.ofNat (n / 256), UInt8.ofNat (n % 256)] = encShort n from rfl, beNat_encShort n h]
-
-theorem beNat_encInt (v : Int) : beNat (encInt v) = (v % 2 ^ 32).toNat := by
-  simp only [encInt, beNat, List.foldl, UInt8.toNat_ofNat']
-  have : (v % 2 ^ 32).toNat < 2 ^ 32 := by omega
-  omega
 
 theorem readInt_roundtrip (v : Int) (h : -2 ^ 31 ≤ v ∧ v < 2 ^ 31) (rest : Bytes) (s : St)
     (hs : s.buf = encInt v ++ rest) : readInt s = (.ok v, { s with buf := rest }) := by
@@ -253,66 +236,164 @@ theorem readIntLength_negative (v : Int) (h : -2 ^ 31 ≤ v ∧ v < 0) (rest : B
 
 /-! ### well-formed responses decode to exactly what was encoded
 
-FULL STATEMENT (kept): `wellformed_roundtrip : ∀ feats r, WF r → decode feats (encodeResp feats r) = ok r` for every
-response value of every kind.  PROVED below: the primitives it is built from (`[short]`, `[int]`, `[string]`,
-`[bytes]` incl. null) and the kinds READY, AUTHENTICATE, AUTH_CHALLENGE, AUTH_SUCCESS, RESULT/Void,
-RESULT/SetKeyspace (`wellformed_roundtrip_partial`).  MISSING: ERROR, SUPPORTED, EVENT, RESULT/Rows, /Prepared,
-/SchemaChange (their loops need the `loopN` round-trip lemma and, for nested column types, a mutual induction over
-`Ty`); for those kinds "decodes to exactly what was encoded" is checked on every run by the harness oracle against an
-encoder written independently of the driver (tens of thousands of generated values per run). -/
+`RT m enc a` (Proofs/DecodeRT.lean): the reader `m` run on `enc ++ rest` returns `a` and leaves exactly `rest`.
+The encoders are written from the protocol specification; `Choices` are the presentation choices a server has that
+the decoded value does not record (global table spec / "no metadata" flag of the result metadata inside PREPARED). -/
 
-/-- The response kinds covered by the proved round trip, with their opcode and body per the protocol spec. -/
-def encSimple : Response → Option (Nat × Bytes)
-  | .ready => some (0x02, [])
-  | .authenticate n => some (0x03, encString n)
-  | .authChallenge m => some (0x0E, encBytesOpt m)
-  | .authSuccess m => some (0x10, encBytesOpt m)
-  | .result .void => some (0x08, encInt 1)
-  | .result (.setKeyspace ks) => some (0x08, encInt 3 ++ encString ks)
-  | _ => none
+structure Choices where
+  global : Bool
+  noMeta : Bool
 
-/-- Well-formedness: strings are UTF-8 and fit their `u16` length, byte strings fit an `i32` length. -/
-def wfSimple : Response → Prop
-  | .authenticate n => n.length < 65536 ∧ utf8ok n = true
+def opcodeOf : Response → Nat
+  | .error _ => 0x00 | .ready => 0x02 | .authenticate _ => 0x03 | .supported _ => 0x06 | .result _ => 0x08
+  | .event _ => 0x0C | .authChallenge _ => 0x0E | .authSuccess _ => 0x10
+
+/-- Body of a response per native_protocol_v4.spec §4.2 (+ ScyllaDB's metadata-id extension). -/
+def encBody (f : Features) (ch : Choices) : Response → Bytes
+  | .error e => encError e
+  | .ready => []
+  | .authenticate n => encString n
+  | .supported o => encMultimap o
+  | .result .void => encInt 1
+  | .result (.rows r) => encInt 2 ++ encRawRows r
+  | .result (.setKeyspace ks) => encInt 3 ++ encString ks
+  | .result (.prepared p) => encInt 4 ++ encPrepared f ch.global ch.noMeta p
+  | .result (.schemaChange sc) => encInt 5 ++ encSchemaChange sc
+  | .event e => encEvent e
+  | .authChallenge m => encBytesOpt m
+  | .authSuccess m => encBytesOpt m
+
+/-- Well-formedness of a response value: strings are UTF-8 and fit their length fields, counts fit theirs, error
+fields are those of the error code, column types are expressible in the binary format (no custom type strings)
+and nested at most 129 deep, client-routes events excluded. -/
+def WfResponse (f : Features) (ch : Choices) : Response → Prop
+  | .error e => WfError f.rateLimitError e
+  | .ready => True
+  | .authenticate n => WfStr n
+  | .supported o => WfMultimap o
+  | .result .void => True
+  | .result (.rows r) => WfRawRows f r
+  | .result (.setKeyspace ks) => WfStr ks
+  | .result (.prepared p) => WfPrepared f ch.global ch.noMeta p
+  | .result (.schemaChange sc) => WfSchemaChange sc
+  | .event e => WfEvent e
   | .authChallenge m => ∀ b, m = some b → b.length < 2 ^ 31
   | .authSuccess m => ∀ b, m = some b → b.length < 2 ^ 31
-  | .result (.setKeyspace ks) => ks.length < 65536 ∧ utf8ok ks = true
-  | _ => True
 
-theorem wellformed_roundtrip_partial (f : Features) (r : Response) (op : Nat) (body rest : Bytes)
-    (he : encSimple r = some (op, body)) (hw : wfSimple r) :
-    deserResponse f op { buf := body ++ rest } = (.ok r, { buf := rest }) := by
+/-- Every well-formed response of every kind decodes to exactly the value that was encoded, for every
+negotiated-feature combination, and consumes exactly its encoding.
+(Scope, stated in `WfResponse`: EVENT/CLIENT_ROUTES_CHANGE and column types given as custom type strings are
+checked by the differential run only.) -/
+theorem wellformed_roundtrip (f : Features) (ch : Choices) (r : Response) (h : WfResponse f ch r) :
+    RT (deserResponse f (opcodeOf r)) (encBody f ch r) r := by
   cases r with
-  | ready => simp [encSimple] at he; obtain ⟨rfl, rfl⟩ := he; simp [deserResponse]
+  | error e => simpa [deserResponse, opcodeOf, encBody] using rt_map Response.error (rt_deserError f e h)
+  | ready => simpa [deserResponse, opcodeOf, encBody] using rt_pure Response.ready
   | authenticate n =>
-    simp [encSimple] at he; obtain ⟨rfl, rfl⟩ := he
-    have := readString_roundtrip n hw.1 hw.2 rest { buf := encString n ++ rest } rfl
-    simp [deserResponse, tag_def, this]
+    simpa [deserResponse, opcodeOf, encBody] using rt_map Response.authenticate (rt_tag "authenticate" (rt_readString n h))
+  | supported o =>
+    simpa [deserResponse, opcodeOf, encBody] using
+      rt_map Response.supported (rt_tag "supported" (rt_readStringMultimap o h))
+  | event e => simpa [deserResponse, opcodeOf, encBody] using rt_map Response.event (rt_deserEvent e h)
   | authChallenge m =>
-    simp [encSimple] at he; obtain ⟨rfl, rfl⟩ := he
-    have := readBytesOpt_roundtrip m hw rest { buf := encBytesOpt m ++ rest } rfl
-    simp [deserResponse, tag_def, this]
+    simpa [deserResponse, opcodeOf, encBody] using
+      rt_map Response.authChallenge (rt_tag "authchallenge" (rt_readBytesOpt m h))
   | authSuccess m =>
-    simp [encSimple] at he; obtain ⟨rfl, rfl⟩ := he
-    have := readBytesOpt_roundtrip m hw rest { buf := encBytesOpt m ++ rest } rfl
-    simp [deserResponse, tag_def, this]
+    simpa [deserResponse, opcodeOf, encBody] using
+      rt_map Response.authSuccess (rt_tag "authsuccess" (rt_readBytesOpt m h))
+  | result rr =>
+    have key : RT (deserResult f) (encBody f ch (.result rr)) rr := by
+      unfold deserResult
+      cases rr with
+      | void =>
+        simp only [encBody]
+        rw [← List.append_nil (encInt 1)]
+        exact rt_bind (rt_tag _ (rt_readInt 1 (by omega))) (by simpa using rt_pure ResultResp.void)
+      | rows r =>
+        simp only [encBody]
+        exact rt_bind (rt_tag _ (rt_readInt 2 (by omega))) (by
+          simpa using rt_map ResultResp.rows (rt_deserRawRows f r h))
+      | setKeyspace ks =>
+        simp only [encBody]
+        exact rt_bind (rt_tag _ (rt_readInt 3 (by omega))) (by
+          simpa using rt_map ResultResp.setKeyspace (rt_tag "setks" (rt_readString ks h)))
+      | prepared p =>
+        simp only [encBody]
+        exact rt_bind (rt_tag _ (rt_readInt 4 (by omega))) (by
+          simpa using rt_map ResultResp.prepared (rt_deserPrepared f ch.global ch.noMeta p h))
+      | schemaChange sc =>
+        simp only [encBody]
+        exact rt_bind (rt_tag _ (rt_readInt 5 (by omega))) (by
+          simpa using rt_map ResultResp.schemaChange (rt_deserSchemaChange sc h))
+    simpa [deserResponse, opcodeOf] using rt_map Response.result key
+
+/-- Second stage of a Rows result (`deserialize_metadata`, then the raw rows): metadata sent by the server, rows
+count and rows decode to exactly what was encoded. -/
+theorem wellformed_roundtrip_rows (r : RawRows) (cached : Option ResultMeta) (m : ResultMeta)
+    (rows : List (List (Option Bytes))) (s : St) (hm : WfRowsMeta r m) (hn : rows.length < 2 ^ 31)
+    (hr : ∀ row ∈ rows, row.length = m.cols.length ∧ ∀ c ∈ row, WfCell c)
+    (hs : s.buf = encRowsMeta r m ++ (encInt rows.length ++ rows.flatMap encRow)) :
+    (deserMetadata r cached s).1 = .ok ⟨.parsed, m, rows.length, rows.flatMap encRow⟩ ∧
+    readRows m.cols.length rows.length 0 (rows.flatMap encRow) = (rows, none) := by
+  refine ⟨?_, readRows_roundtrip m.cols.length rows 0 hr⟩
+  unfold deserMetadata
+  obtain ⟨s1, h1, hb1⟩ := rt_metaFor r cached m hm _ s hs
+  obtain ⟨s2, h2, hb2⟩ := rt_tag "rowscount" (rt_readIntLength rows.length hn) (rows.flatMap encRow) s1 hb1
+  simp only [bind_def, h1, h2, takeRest, hb2, pure_def]
+
+/-! ### truncation of whole responses
+
+FULL STATEMENT (kept): `truncation_is_error : WfResponse f ch r → TR (deserResponse f (opcodeOf r)) (encBody f ch r)`
+— every proper prefix of an encoded response body is an error, never `ok` of something else.  PROVED below for
+READY (no proper prefix exists), AUTHENTICATE, AUTH_CHALLENGE, AUTH_SUCCESS, RESULT/Void, RESULT/SetKeyspace
+(`truncation_is_error_partial`), from the compositional lemmas `tr_bind` / `tr_takeN` (Proofs/DecodeRT.lean).
+MISSING: the kinds with loops (ERROR field lists, SUPPORTED, EVENT, SchemaChange, Prepared, Rows metadata) need the
+`loopN` instance of `tr_bind`; they are covered by the exhaustive truncation cases of the differential run.
+Where a prefix legitimately decodes: a RESULT/Rows body cut inside the ROWS region (after the rows count) still
+decodes at the response level and in `deserialize_metadata`; the cut shows up as a per-row error (`rowErr`) when
+the rows are iterated — that is the code's behaviour (`RawRowIterator`), and the model's. -/
+
+def simpleKind : Response → Bool
+  | .ready | .authenticate _ | .authChallenge _ | .authSuccess _ | .result .void | .result (.setKeyspace _) => true
+  | _ => false
+
+theorem truncation_is_error_partial (f : Features) (ch : Choices) (r : Response) (hk : simpleKind r = true)
+    (h : WfResponse f ch r) : TR (deserResponse f (opcodeOf r)) (encBody f ch r) := by
+  cases r with
+  | ready =>
+    intro p t ht hp
+    simp [encBody] at hp
+    exact absurd hp.2 ht
+  | authenticate n =>
+    simpa [deserResponse, opcodeOf, encBody] using
+      tr_bindL (f := fun n => (pure (Response.authenticate n) : M Response)) (tr_tag "authenticate" (tr_readString n h.1))
+  | authChallenge m =>
+    simpa [deserResponse, opcodeOf, encBody] using
+      tr_bindL (f := fun m => (pure (Response.authChallenge m) : M Response)) (tr_tag "authchallenge" (tr_readBytesOpt m h))
+  | authSuccess m =>
+    simpa [deserResponse, opcodeOf, encBody] using
+      tr_bindL (f := fun m => (pure (Response.authSuccess m) : M Response)) (tr_tag "authsuccess" (tr_readBytesOpt m h))
   | result rr =>
     cases rr with
     | void =>
-      simp [encSimple] at he; obtain ⟨rfl, rfl⟩ := he
-      have := readInt_roundtrip 1 (by omega) rest { buf := encInt 1 ++ rest } rfl
-      simp [deserResponse, deserResult, tag_def, this]
+      have : TR (deserResult f) (encInt 1) := by
+        unfold deserResult; exact tr_bindL (tr_tag _ (tr_readInt 1))
+      simpa [deserResponse, opcodeOf, encBody] using
+        tr_bindL (f := fun r => (pure (Response.result r) : M Response)) this
     | setKeyspace ks =>
-      simp [encSimple] at he; obtain ⟨rfl, rfl⟩ := he
-      have h1 := readInt_roundtrip 3 (by omega) (encString ks ++ rest) { buf := encInt 3 ++ (encString ks ++ rest) } rfl
-      have h2 := readString_roundtrip ks hw.1 hw.2 rest { buf := encString ks ++ rest } rfl
-      simp [deserResponse, deserResult, tag_def, h1, h2]
-    | rows _ => simp [encSimple] at he
-    | prepared _ => simp [encSimple] at he
-    | schemaChange _ => simp [encSimple] at he
-  | error _ => simp [encSimple] at he
-  | supported _ => simp [encSimple] at he
-  | event _ => simp [encSimple] at he
+      have : TR (deserResult f) (encInt 3 ++ encString ks) := by
+        unfold deserResult
+        refine tr_bind (rt_tag _ (rt_readInt 3 (by omega))) (tr_tag _ (tr_readInt 3)) ?_
+        simp only [show ((3 : Int) = 1) = False by decide, show ((3 : Int) = 2) = False by decide, if_false, if_true]
+        exact tr_bindL (tr_tag _ (tr_readString ks h.1))
+      simpa [deserResponse, opcodeOf, encBody] using
+        tr_bindL (f := fun r => (pure (Response.result r) : M Response)) this
+    | rows _ => simp [simpleKind] at hk
+    | prepared _ => simp [simpleKind] at hk
+    | schemaChange _ => simp [simpleKind] at hk
+  | error _ => simp [simpleKind] at hk
+  | supported _ => simp [simpleKind] at hk
+  | event _ => simp [simpleKind] at hk
 
 /-! ### non-vacuity: concrete frames -/
 
@@ -326,9 +407,29 @@ example : (match (decode {} none none [0x84, 0, 0, 0, 0x02, 0, 0, 0, 0]).1 with
 example : (decode {} none none [0x84, 0, 0, 0, 0x08, 0, 0, 0, 12, 0, 0, 0, 2, 0, 0, 0, 0, 0x7f, 0xff, 0xff, 0xff]).2.alloc ≤ 3 := by
   decide +kernel
 
-/-- The hypotheses of the round trip are satisfiable on a non-trivial value. -/
-example : wfSimple (.authChallenge (some [1, 2, 3])) ∧ encSimple (.authChallenge (some [1, 2, 3])) = some (0x0E, [0, 0, 0, 3, 1, 2, 3]) := by
-  refine ⟨?_, by decide⟩
-  intro b hb; injection hb with hb; subst hb; decide
+/-- The hypotheses of the round trip are satisfiable on non-trivial values: a RESULT/Rows header with paging state,
+a WRITE_TIMEOUT error, a column of type `map<int, list<text>>`. -/
+example : WfResponse {} ⟨false, false⟩ (.result (.rows ⟨3, true, .justMetadata, some [1, 2]⟩)) := by
+  show WfRawRows _ _
+  unfold WfRawRows
+  refine ⟨?_, by decide, ?_⟩
+  · intro h; cases h
+  · intro p hp; injection hp with hp; subst hp; decide
+
+example : WfResponse {} ⟨false, false⟩
+    (.error ⟨0x1100, S "timeout", [.cons 6, .int 1, .int 2, .str (S "SIMPLE")]⟩) := by
+  show WfError _ _
+  unfold WfError
+  refine ⟨by decide, wfS _ (by decide +kernel), by decide +kernel, ?_⟩
+  intro x hx
+  simp only [List.mem_cons, List.mem_nil_iff, or_false] at hx
+  rcases hx with rfl | rfl | rfl | rfl
+  · show (6 : Nat) ≤ 10; decide
+  · show (-2 ^ 31 : Int) ≤ 1 ∧ (1 : Int) < 2 ^ 31; decide
+  · show (-2 ^ 31 : Int) ≤ 2 ∧ (2 : Int) < 2 ^ 31; decide
+  · exact wfS _ (by decide +kernel)
+
+example : BinTy (.map false (.native .int) (.list false (.native .text))) 129 := by
+  simp [BinTy]
 
 end ScyllaVerif.Props.C08
